@@ -17,6 +17,12 @@ CONFIG = dict(
              'k = 255, 257, 1000, 1025, 10 000 (4 shapes each), 32 769, 65 537.. (thorough: 100 000 x 4 and 1 000 000); scale-append/-prepend = one line at a time at the end / front with a changing value (500, 3000, 70 000; thorough 10^6); '
              'hugemany = files of 2^31-1, 2^31, 2^31+1, 2^31+4097, 3*10^9, 3*10^9+7, 2^32-1001, 2^32-2 lines with 20..400 intervals stamped around each of the anchors 100, 2^31-1000, 2^31, 2^31+1000, 3*10^9, end-100 and '
              'replacements / insertions / deletions across 2^31 around them; hugebad = the same followed by one request with pos, del <= MaxUint32 and pos+del in 2^32-1..2^32+2^20 (must panic). '
+             'Round 4 (content of values, pairs of features): exval = every sequence of <=3 requests (ins 0..1) on a one-line file and of <=2 requests (ins 0..2) on a two-line file over eight alphabets of three values that a normalisation '
+             'would make equal (a regular packed value + two merge-mode authors 49151 / 65535; the bare mark 16383 next to a packed one; one tick without / with two authors; one author with two ticks; the mark and the largest regular tick; '
+             'values equal in the low 16 / 31 bits; marks equal in the low 31 bits; two merge authors + 2^32-2), t0 ranging over the alphabet; align = random sequences on files of 0..8 lines over such an alphabet (fixed or random: 1..2 ticks incl. the mark x 2..3 authors incl. none) '
+             'whose requests start AND end at interval starts (one in three with one end a line off), stamped with the value in front of / behind the range or any value of the alphabet; '
+             'scale-* with merge-mode stamps (every 2nd..5th stamp carries the mark with one of 2..4 authors incl. the bare mark; k = 100, 255, 257, 1000 and a 500-line spine, checkpoint every 50 operations; thorough: 1025 x 4 shapes, 10 000), '
+             'every scale churn has one request in five whose range starts and ends at interval starts read from the real tree, stamped with the neighbour\'s value or its other-author / other-tick variant; half of the hugemany / hugebad cases carry merge-mode stamps of three authors. '
              'Scale cases are observed lightly after every operation (panic class or Len() and the Updater calls) and fully (node list, File.flatten in run-length form) every 1 000..50 000 operations and at the end; '
              'every step is judged by the property (validity / rejection, Len(), per-step histogram law), the lines at every checkpoint; the model is stepped up to about 1 000 intervals. '
              'Non-trivial = at least one operation that inserts or deletes was executed without a panic; distinct = distinct (t0, n0, operation list).',
